@@ -1,7 +1,7 @@
 (* Net/Shutdown.v — small-step models of closing an upstream transport while dials, exchanges, releases
    and idle timers are in progress (C18).  One transition = one atomic action of the Go code (one critical
    section of the transport mutex, one net.Conn call, one channel hand-over).  Everything is executable:
-   [r_step], [p_step] : state -> label -> option state  ([None] = the label is not enabled).
+   [r_step], [sdp_step] : state -> label -> option state  ([None] = the label is not enabled).
 
    Part 1  ReuseConnTransport   (internal/upstream/transport/reuse_transport.go)
    Part 2  PipelineTransport    (pipeline_transport.go, pipeline_conn.go, dependency connpool/pool.go)
@@ -355,7 +355,7 @@ Inductive pstage :=
 
 Record ptask := { pt_stage : pstage; pt_res : option bool; pt_retry : nat }.
 
-Record pstate := {
+Record sd_pstate := {
   ps_closed : bool;            (* Pool.closed *)
   ps_last   : option nat;      (* p.lastDialCall *)
   ps_conns  : list pconn;
@@ -363,13 +363,13 @@ Record pstate := {
   ps_tasks  : list ptask
 }.
 
-Definition p_init : pstate := {| ps_closed := false; ps_last := None; ps_conns := []; ps_dials := []; ps_tasks := [] |}.
+Definition sdp_init : sd_pstate := {| ps_closed := false; ps_last := None; ps_conns := []; ps_dials := []; ps_tasks := [] |}.
 
 Inductive pget := GBusy (c : nat) | GIdle (c : nat) | GJoin | GNew.
 
-Inductive plabel :=
+Inductive sd_plabel :=
 | PSpawn
-| PGet (t : nat) (g : pget)
+| SdGet (t : nat) (g : pget)
 | PDialOk (d : nat)
 | PDialFail (d : nat)
 | PDialFinish (d : nat)                   (* dialingCall.dial after opts.Dial returned: lock p.m, dc.m *)
@@ -386,22 +386,22 @@ Inductive plabel :=
 | PCancel (t : nat)
 | PClose.
 
-Definition pset_task (s : pstate) (t : nat) (x : ptask) : pstate :=
+Definition pset_task (s : sd_pstate) (t : nat) (x : ptask) : sd_pstate :=
   {| ps_closed := ps_closed s; ps_last := ps_last s; ps_conns := ps_conns s; ps_dials := ps_dials s;
      ps_tasks := upd (ps_tasks s) t x |}.
-Definition padd_task (s : pstate) (x : ptask) : pstate :=
+Definition padd_task (s : sd_pstate) (x : ptask) : sd_pstate :=
   {| ps_closed := ps_closed s; ps_last := ps_last s; ps_conns := ps_conns s; ps_dials := ps_dials s;
      ps_tasks := ps_tasks s ++ [x] |}.
-Definition pset_conn (s : pstate) (c : nat) (k : pconn) : pstate :=
+Definition pset_conn (s : sd_pstate) (c : nat) (k : pconn) : sd_pstate :=
   {| ps_closed := ps_closed s; ps_last := ps_last s; ps_conns := upd (ps_conns s) c k; ps_dials := ps_dials s;
      ps_tasks := ps_tasks s |}.
-Definition padd_conn (s : pstate) (k : pconn) : pstate :=
+Definition padd_conn (s : sd_pstate) (k : pconn) : sd_pstate :=
   {| ps_closed := ps_closed s; ps_last := ps_last s; ps_conns := ps_conns s ++ [k]; ps_dials := ps_dials s;
      ps_tasks := ps_tasks s |}.
-Definition pset_dial (s : pstate) (d : nat) (x : pdial) : pstate :=
+Definition pset_dial (s : sd_pstate) (d : nat) (x : pdial) : sd_pstate :=
   {| ps_closed := ps_closed s; ps_last := ps_last s; ps_conns := ps_conns s; ps_dials := upd (ps_dials s) d x;
      ps_tasks := ps_tasks s |}.
-Definition pset_last (s : pstate) (l : option nat) : pstate :=
+Definition pset_last (s : sd_pstate) (l : option nat) : sd_pstate :=
   {| ps_closed := ps_closed s; ps_last := l; ps_conns := ps_conns s; ps_dials := ps_dials s; ps_tasks := ps_tasks s |}.
 
 Definition pwith_stage (k : ptask) (st : pstage) : ptask :=
@@ -426,20 +426,20 @@ Definition pd_cancel (d : pdial) : pdial :=
   else d.
 
 (* remove the trimmed idle conns from the pool (under p.m) and start one closer per conn (after unlock) *)
-Fixpoint p_trim (s : pstate) (trim : list nat) : option pstate :=
+Fixpoint sdp_trim (s : sd_pstate) (trim : list nat) : option sd_pstate :=
   match trim with
   | [] => Some s
   | c :: tl =>
       match nth_error (ps_conns s) c with
       | Some k => match pc_where k with
-                  | PIdle => p_trim (padd_task (pset_conn s c (pc_at k PNone)) (closer_task c)) tl
+                  | PIdle => sdp_trim (padd_task (pset_conn s c (pc_at k PNone)) (closer_task c)) tl
                   | _ => None
                   end
       | None => None
       end
   end.
 
-Definition p_io_fail (s : pstate) (t : nat) (k : ptask) (c : nat) (fresh : bool) : pstate :=
+Definition sdp_io_fail (s : sd_pstate) (t : nat) (k : ptask) (c : nat) (fresh : bool) : sd_pstate :=
   match pt_res k with
   | None =>
       if negb fresh && (pt_retry k <? 5)
@@ -448,7 +448,7 @@ Definition p_io_fail (s : pstate) (t : nat) (k : ptask) (c : nat) (fresh : bool)
   | Some _ => pset_task s t (pwith_stage k (PsRel1 c false))
   end.
 
-Definition p_step (s : pstate) (l : plabel) : option pstate :=
+Definition sdp_step (s : sd_pstate) (l : sd_plabel) : option sd_pstate :=
   match l with
   | PSpawn => Some (padd_task s {| pt_stage := PsStart; pt_res := None; pt_retry := 0 |})
   | PClose =>
@@ -477,7 +477,7 @@ Definition p_step (s : pstate) (l : plabel) : option pstate :=
           end
       | None => None
       end
-  | PGet t g =>
+  | SdGet t g =>
       match nth_error (ps_tasks s) t with
       | Some k =>
           match pt_stage k with
@@ -601,7 +601,7 @@ Definition p_step (s : pstate) (l : plabel) : option pstate :=
           match pt_stage k with
           | PsHas c fresh =>
               match nth_error (ps_conns s) c with
-              | Some kc => if pc_open kc then None else Some (p_io_fail s t k c fresh)
+              | Some kc => if pc_open kc then None else Some (sdp_io_fail s t k c fresh)
               | None => None
               end
           | _ => None
@@ -614,7 +614,7 @@ Definition p_step (s : pstate) (l : plabel) : option pstate :=
           match pt_stage k with
           | PsHas c fresh =>
               match nth_error (ps_conns s) c with
-              | Some _ => let s1 := p_io_fail s t k c fresh in
+              | Some _ => let s1 := sdp_io_fail s t k c fresh in
                           Some (if kill then padd_task s1 (closer_task c) else s1)
               | None => None
               end
@@ -654,7 +654,7 @@ Definition p_step (s : pstate) (l : plabel) : option pstate :=
                       then match trim with [] => Some (pset_task (pset_conn s c (pc_at kc PNone)) t next) | _ => None end
                       else match n with
                            | S (S m) => match trim with [] => Some (pset_task (pset_conn s c (pc_at kc (PBusy (S m)))) t next) | _ => None end
-                           | _ => match p_trim (pset_conn s c (pc_at kc PIdle)) trim with
+                           | _ => match sdp_trim (pset_conn s c (pc_at kc PIdle)) trim with
                                   | Some s1 => Some (pset_task s1 t next)
                                   | None => None
                                   end
@@ -704,16 +704,16 @@ Definition p_step (s : pstate) (l : plabel) : option pstate :=
       end
   end.
 
-Fixpoint p_run (s : pstate) (ls : list plabel) : option pstate :=
+Fixpoint sdp_run (s : sd_pstate) (ls : list sd_plabel) : option sd_pstate :=
   match ls with
   | [] => Some s
-  | l :: tl => match p_step s l with Some s' => p_run s' tl | None => None end
+  | l :: tl => match sdp_step s l with Some s' => sdp_run s' tl | None => None end
   end.
 
 Definition pd_is_got (d : pdial) : bool := match pd_stage d with PdGot true => true | _ => false end.
-Definition p_open_count (s : pstate) : nat :=
+Definition sdp_open_count (s : sd_pstate) : nat :=
   length (filter pc_open (ps_conns s)) + length (filter pd_is_got (ps_dials s)).
-Definition p_result (s : pstate) (t : nat) : option bool :=
+Definition sdp_result (s : sd_pstate) (t : nat) : option bool :=
   match nth_error (ps_tasks s) t with Some k => pt_res k | None => None end.
 
 Definition pt_is_closer (k : ptask) : bool :=
@@ -765,7 +765,7 @@ Definition all_ukinds : list ukind := [KUdp; KTcp; KTcpPipeline; KTls; KTlsPipel
    Part 4 — deterministic big-step semantics for quiescent histories (what the harness replays)
    An external event (new exchange, dial result, server reply, peer error, caller cancel, idle time-out,
    Close) is applied, then every enabled internal step runs to completion.  By construction every
-   big step is a sequence of small steps ([r_big_refines], [p_big_refines] in ShutdownProofs).
+   big step is a sequence of small steps ([r_big_refines], [sdp_big_refines] in ShutdownProofs).
    [honour] = the injected dialer returns as soon as its context is cancelled (a dial pending at Close fails
    at once); otherwise the dial stays pending until the script completes it (a "late" dial).
    ===================================================================================================== *)
@@ -858,7 +858,7 @@ Fixpoint idle_indices (l : list pconn) (off : nat) : list nat :=
   end.
 
 (* Pool.Get's choice: a busy conn with room, else an idle conn, else join the last dial call, else dial *)
-Definition p_choose (maxs : nat) (s : pstate) : pget :=
+Definition sdp_choose (maxs : nat) (s : sd_pstate) : pget :=
   match find_idx (pc_is_busy maxs) (ps_conns s) 0 with
   | Some c => GBusy c
   | None =>
@@ -876,7 +876,7 @@ Definition p_choose (maxs : nat) (s : pstate) : pget :=
   end.
 
 (* Pool.Release's trimming rule after conn c went idle: keep max(#busy, 1) idle connections *)
-Definition p_trim_choice (s : pstate) (c : nat) : list nat :=
+Definition sdp_trim_choice (s : sd_pstate) (c : nat) : list nat :=
   match nth_error (ps_conns s) c with
   | Some kc =>
       match pc_where kc with
@@ -890,9 +890,9 @@ Definition p_trim_choice (s : pstate) (c : nat) : list nat :=
   | None => []
   end.
 
-Definition p_internal_task (maxs : nat) (s : pstate) (t : nat) (k : ptask) : option plabel :=
+Definition sdp_internal_task (maxs : nat) (s : sd_pstate) (t : nat) (k : ptask) : option sd_plabel :=
   match pt_stage k with
-  | PsStart => Some (PGet t (p_choose maxs s))
+  | PsStart => Some (SdGet t (sdp_choose maxs s))
   | PsWait d => match nth_error (ps_dials s) d with
                 | Some dd => match pd_result dd with Some _ => Some (PWake t) | None => None end
                 | None => None
@@ -902,13 +902,13 @@ Definition p_internal_task (maxs : nat) (s : pstate) (t : nat) (k : ptask) : opt
                  | None => None
                  end
   | PsRel1 _ _ => Some (PRel1 t)
-  | PsRel2 c _ wc => Some (PRel2 t (if wc then [] else p_trim_choice s c))
+  | PsRel2 c _ wc => Some (PRel2 t (if wc then [] else sdp_trim_choice s c))
   | PsCloseA _ => Some (PCloseA t)
   | PsCloseB _ => Some (PCloseB t)
   | PsDone => None
   end.
 
-Definition p_internal_dial (honour : bool) (s : pstate) (d : nat) (dd : pdial) : option plabel :=
+Definition sdp_internal_dial (honour : bool) (s : sd_pstate) (d : nat) (dd : pdial) : option sd_plabel :=
   match pd_stage dd with
   | PdDialing => if honour && (ps_closed s || match pd_result dd with Some _ => true | None => false end)
                  then Some (PDialFail d) else None
@@ -916,28 +916,28 @@ Definition p_internal_dial (honour : bool) (s : pstate) (d : nat) (dd : pdial) :
   | PdEnd => None
   end.
 
-Fixpoint p_first_task (maxs : nat) (s : pstate) (ts : list ptask) (off : nat) : option plabel :=
+Fixpoint sdp_first_task (maxs : nat) (s : sd_pstate) (ts : list ptask) (off : nat) : option sd_plabel :=
   match ts with
   | [] => None
-  | k :: tl => match p_internal_task maxs s off k with Some l => Some l | None => p_first_task maxs s tl (S off) end
+  | k :: tl => match sdp_internal_task maxs s off k with Some l => Some l | None => sdp_first_task maxs s tl (S off) end
   end.
-Fixpoint p_first_dial (honour : bool) (s : pstate) (ds : list pdial) (off : nat) : option plabel :=
+Fixpoint sdp_first_dial (honour : bool) (s : sd_pstate) (ds : list pdial) (off : nat) : option sd_plabel :=
   match ds with
   | [] => None
-  | d :: tl => match p_internal_dial honour s off d with Some l => Some l | None => p_first_dial honour s tl (S off) end
+  | d :: tl => match sdp_internal_dial honour s off d with Some l => Some l | None => sdp_first_dial honour s tl (S off) end
   end.
 
-Definition p_first_internal (honour : bool) (maxs : nat) (s : pstate) : option plabel :=
-  match p_first_dial honour s (ps_dials s) 0 with
+Definition sdp_first_internal (honour : bool) (maxs : nat) (s : sd_pstate) : option sd_plabel :=
+  match sdp_first_dial honour s (ps_dials s) 0 with
   | Some l => Some l
-  | None => p_first_task maxs s (ps_tasks s) 0
+  | None => sdp_first_task maxs s (ps_tasks s) 0
   end.
 
-Fixpoint p_quiesce (honour : bool) (maxs : nat) (fuel : nat) (s : pstate) : pstate :=
+Fixpoint sdp_quiesce (honour : bool) (maxs : nat) (fuel : nat) (s : sd_pstate) : sd_pstate :=
   match fuel with
   | O => s
-  | S f => match p_first_internal honour maxs s with
-           | Some l => match p_step s l with Some s' => p_quiesce honour maxs f s' | None => s end
+  | S f => match sdp_first_internal honour maxs s with
+           | Some l => match sdp_step s l with Some s' => sdp_quiesce honour maxs f s' | None => s end
            | None => s
            end
   end.
@@ -948,44 +948,44 @@ Fixpoint open_conn_indices (l : list pconn) (off : nat) : list nat :=
   | k :: tl => (if pc_open k then [off] else []) ++ open_conn_indices tl (S off)
   end.
 
-Definition p_conn_of (s : pstate) (t : nat) : option nat :=
+Definition sdp_conn_of (s : sd_pstate) (t : nat) : option nat :=
   match nth_error (ps_tasks s) t with
   | Some k => match pt_stage k with PsHas c _ => Some c | _ => None end
   | None => None
   end.
 
-Definition p_ext_labels (s : pstate) (e : xev) : option (list plabel) :=
+Definition sdp_ext_labels (s : sd_pstate) (e : xev) : option (list sd_plabel) :=
   match e with
   | XSpawn => Some [PSpawn]
   | XDialOk d => Some [PDialOk d]
   | XDialFail d => Some [PDialFail d]
   | XReply t => Some [PIoOk t]
-  | XPeerErr t => match p_conn_of s t with Some c => Some [PReadErr c] | None => None end
+  | XPeerErr t => match sdp_conn_of s t with Some c => Some [PReadErr c] | None => None end
   | XCancel t => Some [PCancel t]
   | XIdle => Some (map PReadErr (open_conn_indices (ps_conns s) 0))
   | XClose => Some [PClose]
   end.
 
-Definition p_big (honour : bool) (maxs : nat) (s : pstate) (e : xev) : option pstate :=
-  match p_ext_labels s e with
-  | Some ls => match p_run s ls with
-               | Some s1 => Some (p_quiesce honour maxs big_fuel s1)
+Definition sdp_big (honour : bool) (maxs : nat) (s : sd_pstate) (e : xev) : option sd_pstate :=
+  match sdp_ext_labels s e with
+  | Some ls => match sdp_run s ls with
+               | Some s1 => Some (sdp_quiesce honour maxs big_fuel s1)
                | None => None
                end
   | None => None
   end.
 
-Definition p_quiet (honour : bool) (maxs : nat) (s : pstate) : bool :=
-  match p_first_internal honour maxs s with None => true | Some _ => false end.
+Definition sdp_quiet (honour : bool) (maxs : nat) (s : sd_pstate) : bool :=
+  match sdp_first_internal honour maxs s with None => true | Some _ => false end.
 
-Definition p_is_dialing (s : pstate) (d : nat) : bool :=
+Definition sdp_is_dialing (s : sd_pstate) (d : nat) : bool :=
   match nth_error (ps_dials s) d with
   | Some dd => match pd_stage dd with PdDialing => true | _ => false end
   | None => false
   end.
 
-Definition p_is_waiting_reply (s : pstate) (t : nat) : bool :=
-  match p_conn_of s t with Some _ => true | None => false end.
+Definition sdp_is_waiting_reply (s : sd_pstate) (t : nat) : bool :=
+  match sdp_conn_of s t with Some _ => true | None => false end.
 Definition r_is_waiting_reply (s : rstate) (t : nat) : bool :=
   match nth_error (rs_tasks s) t with
   | Some k => match rt_stage k with RsHas _ _ => true | _ => false end
